@@ -90,10 +90,13 @@ type Grammar struct {
 	// IndirectState: code blocks reach the state store through a helper that takes the receiver
 	// (verifSt(c)) instead of spelling c.state - what a grammar with helper functions does.
 	IndirectState bool
-	Rules         []*Rule
-	UsesState     bool // some block touches c.state (grammar has state blocks)
-	NExprs        int
-	byName        map[string]*Rule
+	// StateHelperExtern: with IndirectState, the helper lives in another file of the user's package
+	// (the in-package harness), so no code block and no initializer of the grammar mentions the store
+	StateHelperExtern bool
+	Rules             []*Rule
+	UsesState         bool // some block touches c.state (grammar has state blocks)
+	NExprs            int
+	byName            map[string]*Rule
 }
 
 // Rule returns the rule by name (nil if undefined).
@@ -182,7 +185,7 @@ func (e *Expr) Clone() *Expr {
 
 // CloneGrammar deep-copies a grammar.
 func (g *Grammar) Clone() *Grammar {
-	ng := &Grammar{UsesState: g.UsesState}
+	ng := &Grammar{UsesState: g.UsesState, Raw: g.Raw, IndirectState: g.IndirectState, StateHelperExtern: g.StateHelperExtern}
 	for _, r := range g.Rules {
 		ng.Rules = append(ng.Rules, &Rule{Name: r.Name, Display: r.Display, Expr: r.Expr.Clone()})
 	}
